@@ -379,7 +379,8 @@ class Response:
                 filesize = os.fstat(fileno).st_size
                 nbytes = filesize - offset
             else:
-                nbytes = self.response_length
+                # what is left of the declared length after write() calls
+                nbytes = self.response_length - self.sent
         except (OSError, io.UnsupportedOperation):
             return False
 
